@@ -75,6 +75,12 @@ func readNextPacket(buf *bytes.Buffer) (recoverySetID, packetType, []byte, error
 		return [16]byte{}, packetType{}, nil, err
 	}
 
+	// Check against the remaining bytes before converting to int,
+	// since h.Length may be larger than the maximum int.
+	if h.Length-sizeOfPacketHeader() > uint64(buf.Len()) {
+		return [16]byte{}, packetType{}, nil, errors.New("could not read body")
+	}
+
 	// TODO: Handle overflow.
 	bodyLength := int(h.Length - sizeOfPacketHeader())
 	body := buf.Next(bodyLength)
